@@ -556,3 +556,65 @@ func cloneType(t Type) Type {
 	}
 	return c
 }
+
+// Reachable returns a copy of the schema cut down to the definitions that the named
+// records need (their field types, transitively; a union comes with all its branches, a
+// branch record with its union). Constants are dropped; the order of the remaining
+// definitions is kept. It returns nil when a name is unknown.
+func (s *Schema) Reachable(names ...string) *Schema {
+	if s.byName == nil {
+		s.index()
+	}
+	parent := map[string]string{}
+	for _, d := range s.Defs {
+		for _, b := range d.Branches {
+			parent[b.Def.Name] = d.Name
+		}
+	}
+	need := map[string]bool{}
+	var visitType func(t Type)
+	var visit func(name string)
+	visit = func(name string) {
+		if need[name] {
+			return
+		}
+		d := s.Lookup(name)
+		if d == nil {
+			return
+		}
+		need[name] = true
+		if p, ok := parent[name]; ok {
+			visit(p)
+		}
+		for _, f := range d.Fields {
+			visitType(f.Type)
+		}
+		for _, b := range d.Branches {
+			visit(b.Def.Name)
+		}
+	}
+	visitType = func(t Type) {
+		switch {
+		case t.Array != nil:
+			visitType(*t.Array)
+		case t.MapV != nil:
+			visitType(*t.MapV)
+		case t.Named != "":
+			visit(t.Named)
+		}
+	}
+	for _, n := range names {
+		if s.Lookup(n) == nil {
+			return nil
+		}
+		visit(n)
+	}
+	c := &Schema{Name: s.Name, Combined: s.Combined}
+	for _, d := range s.Defs {
+		if need[d.Name] {
+			c.Defs = append(c.Defs, cloneDef(d))
+		}
+	}
+	c.index()
+	return c
+}
